@@ -37,6 +37,35 @@ def run_cases(exe, work, quick, seed):
     return cases, dist
 
 
+def directed_lines():
+    """op lists that make two different entities meet in one key if names may contain the separators found in the
+    regenerated formats (coq/Store/gen/KeyFmtGen.v): name pairs x<sep>y + z  versus  x + y<sep>z"""
+    import re
+    txt = open(os.path.join(vlib.COQ, "Store/gen/KeyFmtGen.v")).read()
+    seps = set()
+    m = re.search(r'binding_name_sep : string := "(.*)"', txt)
+    if m:
+        seps.add(m.group(1))
+    for fm in re.findall(r'kf_format := "([^"]*)"', txt):
+        for lit in fm.split("%s"):
+            if lit:
+                seps.add(lit)
+    m = re.search(r'sp_sep := "(.*?)"', txt)
+    if m:
+        seps.add(m.group(1))
+    h = lambda b: b.encode().hex()
+    lines = []
+    for sp in sorted(seps):
+        a, b, c = "x", "y", "z"
+        v = h("/")
+        lines.append("AB:%s:%s:%s:%s:0:0 AB:%s:%s:%s:%s:0:0 GB:%s" % (v, h(a + sp + b), h(c), h("k"), v, h(a), h(b + sp + c), h("k"), v))
+        lines.append("AB:%s:%s:%s:%s:0:0 AB:%s:%s:%s:%s:0:0 GB:%s" % (v, h(a), h(b + sp + c), h("k"), v, h(a), h(b), h(c + sp + "k"), v))
+        lines.append("AQ:%s:%s:0:001 AQ:%s:%s:0:001 GQ:%s GQ:%s" % (h(a + sp + b), h("q"), h(a), h(b + sp + "q"), h(a + sp + b), h(a)))
+        lines.append("AE:%s:%s:0:1000 AE:%s:%s:0:1000 GE:%s GE:%s" % (h(a + sp + b), h("e"), h(a), h(b + sp + "e"), h(a + sp + b), h(a)))
+        lines.append("AV:%s:0 AV:%s:0 GV" % (h(a + sp + b), h(a)))
+    return lines
+
+
 def fails_new(exe, work, engine, ops):
     line = sl.run_harness(exe, "srv", engine, lines=[" ".join(ops)], work=work)[0]
     return bool(sl.new_fails(sl.judge_srv(sl.Case("srv", line))))
@@ -122,7 +151,17 @@ def decide(res, pr, bad, new, cases, exe, work, st):
     if bad is None:
         what.append("model runner does not build")
     if not new:
-        # directed search: many more generated traces on the recording engine, judged only
+        # directed search 1: collision candidates built from the separators the CURRENT source uses
+        extra = [sl.Case("srv", l) for l in sl.run_harness(exe, "srv", "rec", lines=directed_lines(), work=work)]
+        res.cov["evaluations"] += len(extra)
+        for c in extra:
+            nf = sl.new_fails(sl.judge_srv(c))
+            if nf:
+                cases.append(c)
+                new.append((len(cases) - 1, nf))
+                break
+    if not new:
+        # directed search 2: many more generated traces on the recording engine, judged only
         for k in range(6):
             g = dict(seed=res.seed + 1000 + k, n=1500, len=18, safe=(k % 2 == 0))
             extra = [sl.Case("srv", l) for l in sl.run_harness(exe, "srv", "rec", gen=g, work=work)]
